@@ -59,3 +59,6 @@ M("c14-from-thread-run-own-scope-only", "C14", A, "AsyncIOBackend.run_async_from
 M("c14-total-tokens-grants-by-difference", "C14", A, "CapacityLimiter.total_tokens@setter",
   "        self._total_tokens = value\n\n        # Notify waiting tasks that they have acquired the limiter\n        while self._wait_queue and len(self._borrowers) < self._total_tokens:\n",
   "        added = value - self._total_tokens\n        self._total_tokens = value\n\n        while self._wait_queue and added > 0:\n            added -= 1\n", ["R14-h"])
+
+# from seeded change C03/f (round 3)
+M("c14-cancellable-alias-dropped", "C14", TT, "run_sync", "        abandon_on_cancel = cancellable\n", "", ["R14-e"])
